@@ -279,7 +279,14 @@ pub fn gen_history(r: &mut Rng, g: &GenCfg) -> History {
                 } else {
                     gen_idref(r, false)
                 };
-                ops.push(AOp::Av { ci, p, payload: gen_payload(r, g), cuts: r.next() });
+                let (payload, cuts) = (gen_payload(r, g), r.next());
+                ops.push(AOp::Av { ci, p, payload: payload.clone(), cuts });
+                if cuts % 16 == 7 {
+                    // a client that lost the answer sends the request again: same parent (by now the latest's parent, if the
+                    // first was accepted), byte-identical payload. No extra draw from the generator, so the rest of the
+                    // history is the one this seed always produced. (seeded C02-7: a "repeated request" shortcut answered 200)
+                    ops.push(AOp::Av { ci, p: IdRef::Anc(1, Uuid::from_u64_pair(cuts, !cuts)), payload, cuts });
+                }
                 if g.snapwalk_after_write {
                     ops.push(AOp::SnapWalk { ci });
                 }
